@@ -3,7 +3,8 @@
 use crate::jgen;
 use crate::rng::Rng;
 
-pub const METHODS: [&str; 10] = [
+pub const METHODS: [&str; 11] = [
+	"seq3",
 	"echo_sync",
 	"echo_async",
 	"echo_blocking",
@@ -72,7 +73,17 @@ pub fn params_token(r: &mut Rng, nonce: &str) -> Option<String> {
 		4 => Some("[]".into()),
 		5 => Some("{}".into()),
 		6 => Some(format!("[{}]", r.pick(&jgen::INT_EDGES))),
-		7 => Some(format!("[ {} , \"{nonce}\" ]", r.below(100))),
+		7 => {
+			// (u64, string, optional u64) with whitespace around every token
+			let w = |r: &mut Rng| jgen::ws(r, 2);
+			let third = match r.below(4) {
+				0 => String::new(),
+				1 => format!("{},{}null{}", w(r), w(r), w(r)),
+				2 => format!("{},{}{}{}", w(r), w(r), r.below(1000), w(r)),
+				_ => format!("{},{}\"x\"", w(r), w(r)),
+			};
+			Some(format!("[{}{}{},{}\"{nonce}\"{}{}]", w(r), r.pick(&["0", "7", "18446744073709551615", "-1", "1.5"]), w(r), w(r), w(r), third))
+		}
 		8 => Some(jgen::number_token(r)),
 		9 => {
 			let s = jgen::string(r);
